@@ -197,15 +197,34 @@ def zeroOffset : Nat := 62135596800
     the epoch — the two grids coincide only when `W` divides 86400 s -/
 def windowStart (W now : Nat) : Nat := ((now + zeroOffset * nsPerSec) / (W * nsPerSec)) * W - zeroOffset
 
+/-- `windowEntry.roll`: what is carried over as the previous window's count when the entry moves
+    to the window starting at `ws` — the old count only when the entry's window is the one right
+    before (`e.windowStart < now.Truncate(window).Add(-window).Unix()` is the idle-gap test) -/
+def carried (W : Nat) (w : Win) (ws : Nat) : Nat := if w.ws + W < ws then 0 else w.cur
+
 /-- `GetCounts`: roll the entry if a new window has begun, return it -/
 def getCounts (W : Nat) (e : Option Win) (now : Nat) : Win :=
   let ws := windowStart W now
   match e with
   | none => { cur := 0, prev := 0, ws := ws }
-  | some w => if w.ws < ws then { cur := 0, prev := w.cur, ws := ws } else w
+  | some w => if w.ws < ws then { cur := 0, prev := carried W w ws, ws := ws } else w
 
 /-- `Incr` -/
 def incr (W : Nat) (e : Option Win) (now : Nat) : Win :=
+  let ws := windowStart W now
+  match e with
+  | none => { cur := 1, prev := 0, ws := ws }
+  | some w => if w.ws < ws then { cur := 1, prev := carried W w ws, ws := ws } else { w with cur := w.cur + 1 }
+
+/-- as shipped before the Retry-After repair: a roll always carried the old count over, however
+    long the entry had been idle -/
+def getCountsAsIs (W : Nat) (e : Option Win) (now : Nat) : Win :=
+  let ws := windowStart W now
+  match e with
+  | none => { cur := 0, prev := 0, ws := ws }
+  | some w => if w.ws < ws then { cur := 0, prev := w.cur, ws := ws } else w
+
+def incrAsIs (W : Nat) (e : Option Win) (now : Nat) : Win :=
   let ws := windowStart W now
   match e with
   | none => { cur := 1, prev := 0, ws := ws }
@@ -218,15 +237,36 @@ structure Decision where
   usage : Nat
   remaining : Nat
   reset : Nat
+  /-- `retryAfterSeconds(curr+1, prev, limit, elapsed, window)` -/
+  retry : Nat
   deriving DecidableEq, Repr
+
+/-- `elapsed = max(min(now - windowStart, W), 0)` in ns -/
+def elapsedNs (W : Nat) (w : Win) (now : Nat) : Nat := min (now - w.ws * nsPerSec) (W * nsPerSec)
+
+/-- `retryAfterSeconds`: `w` is the entry as `GetCounts` reported it (the rejected request is counted
+    on top: `counted = cur + 1`); the wait in ns until the sliding estimate *equals* the limit, then the
+    next whole second. `scaleDuration(d, num, den) = ⌊d·num/den⌋` (0 for `num ≤ 0`: truncated
+    subtraction). -/
+def retryAfter (limit W : Nat) (w : Win) (now : Nat) : Nat :=
+  let Wns := W * nsPerSec
+  let elapsed := elapsedNs W w now
+  let counted := w.cur + 1
+  let wait :=
+    if limit = 0 then 2 * Wns - elapsed
+    else if counted < limit then
+      (if 0 < w.prev then Wns * (w.prev - (limit - counted)) / w.prev - elapsed else 0)
+    else Wns - elapsed + Wns * (counted - limit) / counted
+  wait / nsPerSec + 1
 
 def decide_ (limit W : Nat) (w : Win) (now : Nat) : Decision :=
   let Wns := W * nsPerSec
-  let elapsed := min (now - w.ws * nsPerSec) Wns
+  let elapsed := elapsedNs W w now
   let num := w.cur * Wns + w.prev * (Wns - elapsed)
   { usage := num / Wns,
     remaining := (limit * Wns - num) / Wns,
-    reset := (w.ws + W) - now / nsPerSec }
+    reset := (w.ws + W) - now / nsPerSec,
+    retry := retryAfter limit W w now }
 
 /-- one request through `WithSlidingWindow`, as two atomic steps on the key's entry -/
 inductive Op
@@ -249,6 +289,9 @@ structure WinCfg where
   headers : Bool
   enforce : Bool
   hasCallback : Bool
+  /-- the store implements `AtomicWindowStore` (the in-memory store does): `IncrAndGetCounts` serves
+      the request in one step; otherwise `GetCounts` and `Incr` are two steps -/
+  atomic : Bool := false
   deriving Repr
 
 abbrev WinStore := List (Bytes × Win)
@@ -274,9 +317,13 @@ def winAnswer (cfg : WinCfg) (limitText : Bytes) (d : Decision) : WinObs :=
   let rst := if cfg.headers then some d.reset else none
   if d.usage ≥ cfg.limit then
     if cfg.hasCallback then { status := 418, ran := false, limit := lim, remaining := rem, reset := rst, retryAfter := none }
-    else if cfg.enforce then { status := 429, ran := false, limit := lim, remaining := rem, reset := rst, retryAfter := some d.reset }
+    else if cfg.enforce then { status := 429, ran := false, limit := lim, remaining := rem, reset := rst, retryAfter := some d.retry }
     else { status := 200, ran := true, limit := lim, remaining := rem, reset := rst, retryAfter := none }
   else { status := 200, ran := true, limit := lim, remaining := rem, reset := rst, retryAfter := none }
+
+/-- as shipped: `Retry-After` repeated `resetSeconds`, the time to the end of the fixed window -/
+def winAnswerAsIs (cfg : WinCfg) (limitText : Bytes) (d : Decision) : WinObs :=
+  { winAnswer cfg limitText d with retryAfter := (winAnswer cfg limitText d).retryAfter.map fun _ => d.reset }
 
 /-- interpreter state: the store, and for every request that has done its `GetCounts` the decision
     it took away from it -/
@@ -292,8 +339,15 @@ def stepWin (cfg : WinCfg) (limitText : Bytes) (reqs : List WinReq) (s : WinStat
     | none => s
     | some q =>
       let w := getCounts cfg.W (s.store.lookup q.key) q.now
-      { s with store := s.store.set q.key w, pending := (i, decide_ cfg.limit cfg.W w q.now) :: s.pending }
+      if cfg.atomic then
+        -- `IncrAndGetCounts`: roll, report, count — one step under the entry lock; the request's
+        -- verdict is fixed here (its `inc` step is only the point at which the response is complete)
+        { s with store := s.store.set q.key (incr cfg.W (some w) q.now),
+                 answers := s.answers ++ [(i, winAnswer cfg limitText (decide_ cfg.limit cfg.W w q.now))] }
+      else
+        { s with store := s.store.set q.key w, pending := (i, decide_ cfg.limit cfg.W w q.now) :: s.pending }
   | .inc i =>
+    if cfg.atomic then s else
     match reqs[i]?, s.pending.lookup i with
     | some q, some d =>
       let w := incr cfg.W (s.store.lookup q.key) q.now
